@@ -507,6 +507,34 @@ def catalogue(thorough):
         body += [b"        (println (fgetc h{k}))"] * n + [b"        (println (fclose h{k}))"]
         c = Call("fopen/fgetc/fclose", label, od, [V("p", "string", lit(path), 5 + len(path)), V("m", "string", b'"r"', 6)], "opaque", custom=body, n_ext=n + 2)
         calls.append(c)
+    # ---- arity: 0 .. 10 parameters (10 is what the bridge dispatches) -----------------------------------------
+    # 0: pure / process-independent results; the request then carries no argument bytes at all
+    for fn, ret in (("getpagesize", "int"), ("getuid", "int"), ("getegid", "int"), ("vm_getcwd", "string")):
+        calls.append(Call(fn, "n0", [decl(fn, [], ret)], [], ret))
+    body = [b"        (println (rand))", b"        (println (rand))"]
+    calls.append(Call("rand", "n0", [decl("srand", ["int"], "void"), decl("rand", [], "int")], [], "int", custom=body, n_ext=2))
+    add("nl_cstr_concat", ["string", "string"], "string",
+        [("%s,%s" % (x.label, y.label), [x, y]) for x in S[:10] for y in (S[0], S[2], S[6])], res=lambda a: a[0].size + a[1].size)
+    # 4: memmem(hay, |hay|, needle, |needle|) - every parameter decides the result
+    def mm(h):
+        n = needle_tail(h)
+        return ("%s,len,tail,len" % h.label, [h, V("hl", "int", str(len(h.val)).encode(), 9), n, V("nl", "int", str(len(n.val)).encode(), 9)])
+    add("memmem", ["string", "int", "string", "int"], "string", [mm(h) for h in S if len(h.val) > 0], res=lambda a: a[0].size)
+    # 3..10 ints: snprintf(NULL, 0, fmt, v1..vk) returns the rendered length, which every vi contributes to
+    for k in range(0, 8):
+        for variant, vals in (("digits", [str(10 ** (j + 1) - 1) for j in range(k)]),
+                              ("neg", [str(-(7 ** (j + 2))) for j in range(k)]),
+                              ("min-last", [str(j) for j in range(k - 1)] + ["IMIN"] if k else None)):
+            if vals is None or (k == 0 and variant != "digits"):
+                continue
+            fmt = "<" + "|".join(["%ld"] * k) + ">"
+            args = [V("buf", "int", b"0", 9), V("size", "int", b"0", 9), s_lit("fmt", fmt.encode())] + [V("v", "int", x.encode(), 9) for x in vals]
+            calls.append(Call("snprintf", "n%d.%s" % (3 + k, variant), [decl("snprintf", ["int", "int", "string"] + ["int"] * k, "int")], args, "int"))
+    # 4..10 floats: fma with surplus arguments (the C ABI ignores them; the request still has to carry and frame them)
+    for n in range(4, 11):
+        fs = [F[(i * 5 + n) % len(F)] for i in range(n)]
+        calls.append(Call("fma", "n%d.surplus:%s" % (n, ",".join(f.label for f in fs[:3])), [decl("fma", ["float"] * n, "float")], fs, "float"))
+
     vd = [decl("srand", ["int"], "void"), decl("rand", [], "int")]
     for label, seed in (("v.seed42", b"42"), ("v.seed-neg", b"-7"), ("v.seed-max", b"IMAX")):
         body = [b"        (srand " + seed + b")", b"        (println (rand))", b"        (println (rand))"]
@@ -888,9 +916,24 @@ def controls(ctx, fl, sc, tag):
     a = sh([fl.nano_vm, nvm], cpu=30, cwd=wd, env=env, san=(tag == "asan"))
     b = sh([fl.nano_vm, "--isolate-ffi", nvm], cpu=30, cwd=wd, env=env, san=(tag == "asan"))
     me = str(os.getpid()).encode()
-    ctx.require(a.status == 0 and a.out.strip() == me, "control: in-process getppid() did not return the harness pid: %s" % a.brief())
-    ctx.require(b.status == 0 and b.out.strip().isdigit() and b.out.strip() != me,
-                "control: under --isolate-ffi getppid() was not executed in a child of the VM: %s" % b.brief())
+    cfiles = {"program.nano": open(src, "rb").read(), "inproc.out": a.out, "inproc.err": a.err, "isolated.out": b.out,
+              "isolated.err": b.err, "cmd.txt": "flavor %s; PATH=<flavor>/bin:/usr/bin:/bin\nnano_vm c.nvm  vs  nano_vm --isolate-ffi c.nvm\n" % fl.name}
+    if a.timeout or b.timeout:
+        ctx.require(False, "control program hit the watchdog: %s / %s" % (a.brief(), b.brief()))
+    inproc_ok = a.status == 0 and a.out.strip() == me
+    iso_ran = b.status == 0 and b.out.strip().isdigit()
+    if not inproc_ok:
+        # fails (or is unobservable) without isolation too: nothing to compare against
+        ctx.require(False, "control: in-process getppid() did not return the harness pid: %s / isolated: %s" % (a.brief(), b.brief()))
+    if not iso_ran:
+        # the same program succeeded in-process and ends differently under --isolate-ffi: that is the property, not a harness problem
+        what = "status" if b.status != a.status else "output"
+        ctx.violation("isolate-diff|control|getppid-" + what,
+                      "%s flavor: a program that only calls the zero-argument extern getppid() prints the pid and exits 0 in-process, "
+                      "but under --isolate-ffi: status %s, stdout %r, stderr %s" % (tag, b.status, b.out[:200], b.errtext()[-400:]), cfiles)
+        return env
+    ctx.require(b.out.strip() != me, "control: under --isolate-ffi getppid() was not executed in a child of the VM "
+                "(the co-process was not used, isolation cannot be observed): %s" % b.brief())
     return env
 
 
